@@ -480,6 +480,22 @@ class Implicit:
         for (suffix, op), reason in DISCHARGED_SITES.items():
             if fn.qualname.endswith(suffix) and norm(n) == op:
                 return self._record(fn, n, reason)
+        # a local (possibly of an enclosing function) bound exactly once, to a tuple / list display that is long enough
+        if isinstance(n.value, ast.Name) and isinstance(n.slice, ast.Constant) and isinstance(n.slice.value, int):
+            nm, i = n.value.id, n.slice.value
+            for outer in ast.walk(fn.module.tree):
+                if isinstance(outer, (ast.FunctionDef, ast.Lambda)) and any(x is n for x in ast.walk(outer)):
+                    binds = [st for st in ast.walk(outer) if isinstance(st, (ast.Assign, ast.AugAssign, ast.AnnAssign, ast.For, ast.With, ast.NamedExpr, ast.comprehension)) and any(isinstance(t, ast.Name) and t.id == nm and isinstance(t.ctx, ast.Store) for t in ast.walk(st))]
+                    args = outer.args
+                    is_param = nm in [a.arg for a in args.posonlyargs + args.args + args.kwonlyargs] or (args.vararg and args.vararg.arg == nm) or (args.kwarg and args.kwarg.arg == nm)
+                    if is_param:
+                        break
+                    if len(binds) == 1 and isinstance(binds[0], ast.Assign) and len(binds[0].targets) == 1 and isinstance(binds[0].targets[0], ast.Name):
+                        v0 = binds[0].value
+                        if isinstance(v0, (ast.Tuple, ast.List)) and not any(isinstance(e, ast.Starred) for e in v0.elts) and (0 <= i < len(v0.elts) or -len(v0.elts) <= i < 0):
+                            return self._record(fn, n, "`%s` is bound once, to a %d-element display" % (nm, len(v0.elts)))
+                    if binds:
+                        break
         # x.split(...)[0] / [-1]: str.split never returns an empty list (also through a trivial accessor on self)
         val: ast.AST = n.value
         if fn.cls is not None:
